@@ -3,6 +3,8 @@ import Driver.Url
 import Zeno.Model.Stages
 import Zeno.Gen.Stages
 import Zeno.Gen.Item
+import Zeno.Gen.Archiver
+import Zeno.Model.Warc
 namespace Driver.Stage
 open Lean Zeno Zeno.Model.Item Zeno.Model.Stages
 
@@ -98,6 +100,20 @@ def step (base : Bool) (st : St) (j : Json) : Except String (St × String) := do
     | some (id, b) => pure (st, s!"bad {id} {b.name}")
   | "depths" =>
     pure (st, ",".intercalate ((st.tree.depths 0 0 true).map (fun (id, d, r) => s!"{id}:{d}:{r}")))
+  | "visit" =>
+    -- one visit of a URL through the retry loop: {"maxRetry":n,"script":["reset",503,"cf",200,...]} (the last entry repeats)
+    let A := if base then Zeno.Base.Archiver.facts else Zeno.Gen.Archiver.facts
+    let script : List Zeno.Model.Warc.Attempt := match j.getObjVal? "script" with
+      | .ok (.arr a) => a.toList.map (fun e => match e with
+          | .str "reset" => Zeno.Model.Warc.Attempt.netErr
+          | .str "cf" => .resp 403 true
+          | .num n => .resp n.mantissa.toNat false
+          | _ => .netErr)
+      | _ => []
+    let site (n : Nat) : Zeno.Model.Warc.Attempt := script.getD n (script.getLastD .netErr)
+    let (n, e) := Zeno.Model.Warc.visit A (natD j "maxRetry" 0) site
+    let es := match e with | .failed => "failed" | .ok s => s!"ok:{s}" | .fellThrough => "fell-through"
+    pure (st, s!"requests={n} end={es}")
   | "close" => pure (st, "ok")
   | _ => throw s!"bad op {op}"
 
